@@ -309,6 +309,9 @@ func runAll(repo, out string) int {
 		func() {
 			defer func() {
 				if p := recover(); p != nil {
+					if os.Getenv("LUNGOCHECK_PANIC") != "" {
+						debug.PrintStack()
+					}
 					rep.unk("analysis-panic", "-", fmt.Sprintf("rule panicked: %v", p))
 				}
 			}()
